@@ -165,14 +165,16 @@ def step (st : Unit) (line : String) : Unit × String :=
     | some [lenA, lenB, common, scaled, k], some accA, some accB, some v1, some v2 =>
       if k = 0 ∨ scaled = 0 ∨ common > lenA ∨ common > lenB then bad else
       let head := s!"acc={b2s accA}{b2s accB} v={fb v1},{fb v2} "
+      -- `routes=ok`: the adapter evaluates every spelling of the estimate (sketch / signature level, defaults spelled out, …);
+      -- the model has ONE operation
       match kind with
-      | "cont" => (st, head ++ showCi (mhContainmentAni v1 k scaled lenA accA accB))
-      | "max" => (st, head ++ showCi (mhMaxContainmentAni v1 k scaled lenA lenB accA accB))
-      | "jac" => (st, head ++ showJac (mhJaccardAni v1 k scaled lenA lenB accA accB))
+      | "cont" => (st, head ++ showCi (mhContainmentAni v1 k scaled lenA accA accB) ++ " routes=ok")
+      | "max" => (st, head ++ showCi (mhMaxContainmentAni v1 k scaled lenA lenB accA accB) ++ " routes=ok")
+      | "jac" => (st, head ++ showJac (mhJaccardAni v1 k scaled lenA lenB accA accB) ++ " routes=ok")
       | "avg" =>
         match mhAvgContainmentAni v1 v2 k scaled lenA lenB accA accB with
-        | .ok a => (st, head ++ "ok ani=" ++ ofb a)
-        | .error e => (st, head ++ "err " ++ e)
+        | .ok a => (st, head ++ "ok ani=" ++ ofb a ++ " routes=ok")
+        | .error e => (st, head ++ "err " ++ e ++ " routes=ok")
       | _ => bad
     | _, _, _, _, _ => bad
   | ["sia", len, scaled, rel, conf, cdfHi, cdfLo, pmfLo] =>
